@@ -663,10 +663,30 @@ def _split_tuple_assign(a: ast.Assign) -> List[ast.stmt]:
     return out or [ast.copy_location(ast.Pass(), a)]
 
 
+def _returns_tree_expr(stmts) -> Optional[ast.AST]:
+    """A body that is nothing but a decision tree of `return <expr>` statements, as one (conditional) expression."""
+    if not stmts:
+        return None
+    head, rest = stmts[0], stmts[1:]
+    if isinstance(head, ast.Return):
+        return head.value if head.value is not None and not rest else None
+    if isinstance(head, ast.If):
+        a = _returns_tree_expr(head.body)
+        b = _returns_tree_expr(list(head.orelse) + list(rest)) if (head.orelse or rest) else None
+        if a is None or b is None:
+            return None
+        if head.orelse and rest and not _always_returns(head.orelse):
+            return None
+        return ast.copy_location(ast.IfExp(test=head.test, body=a, orelse=b), head)
+    return None
+
+
 def _inline_expression_call(caller_fi, st, call: ast.Call, callee_fi) -> bool:
     body = _callee_parts(callee_fi)
-    if len(body) != 1 or not isinstance(body[0], ast.Return) or body[0].value is None:
+    tree = _returns_tree_expr(body)
+    if tree is None:
         return False
+    body = [ast.Return(value=tree)]
     is_method = isinstance(call.func, ast.Attribute) and isinstance(call.func.value, ast.Name) and call.func.value.id == "self" and bool(callee_fi.cls)
     if isinstance(call.func, ast.Attribute) and not is_method and callee_fi.cls:
         return False
